@@ -68,11 +68,11 @@ package engine
 //@   requires bs.opts.Transports() != nil && ctx.request != nil
 //@   assumes registryOK(bs.clients)
 //@   dyncall allowRequest pure
-//@   modifies ctx.headers.$bagver, ctx.method, MapGuarded(bs.clients)
+//@   modifies MapOf(ctx.headers.parameters), ctx.method, MapGuarded(bs.clients)
 //@   let method    = old(ctx.method) != "" ? old(ctx.method) : uf_s_ToUpper(old(ctx.request.Method))
-//@   let transport = uf_s_peek(ctx.query, "transport", ctx.query.$bagver)
-//@   let sid       = uf_s_peek(ctx.query, "sid", ctx.query.$bagver)
-//@   let origin    = uf_s_peek(ctx.headers, "Origin", old(ctx.headers.$bagver))
+//@   let transport = bagPeek(ctx.query, "transport")
+//@   let sid       = bagPeek(ctx.query, "sid")
+//@   let origin    = old(bagPeek(ctx.headers, "Origin"))
 //@   let tBad      = !maphas(bs.opts.Transports().cache, transport) || transport == "webtransport"
 //@   let oBad      = invalidHeaderChar(origin)
 //@   let known     = old(mhas(bs.clients, sid))
@@ -504,7 +504,7 @@ package engine
 //@   props C04, C06, C05, C10
 //@   requires bs != nil && ctx != nil && bs.opts != nil && bs.clients != nil && bs._proto_ != nil && bs.EventEmitter != nil && ctx.query != nil
 //@   modifies *
-//@   let eio4      = uf_s_peek(ctx.query, "EIO", old(ctx.query.$bagver)) == "4"
+//@   let eio4      = old(bagPeek(ctx.query, "EIO")) == "4"
 //@   let rejectRev = !eio4 && !bs.opts.AllowEIO3()
 //@   ensures [C05.h.rev]    rejectRev ==> result0 == UNSUPPORTED_PROTOCOL_VERSION && result1 == nil
 //@   ensures [C05.h.reject,C04.reject] result1 == nil ==> result0 != nil && emitted(bs.EventEmitter, "connection_error") == 1 && emitted(bs.EventEmitter, "connection") == 0 && calls(NewSocket) == 0 && calls((*types.Map).Store) == 0 && calls((*sync/atomic.Uint64).Add) == 0
@@ -557,7 +557,7 @@ package engine
 //@   modifies *
 //@   let headers = unbox(args[0], *utils.ParameterBag)
 //@   let req     = unbox(args[1], *types.HttpContext)
-//@   let initial = !uf_b_has(old(req.query), "sid", old(req.query.$bagver))
+//@   let initial = !old(bagHas(req.query, "sid"))
 //@   let cookie  = bs.opts.Cookie()
 //@   ensures [C17.cookie.handshakeonly] !initial ==> ncalls((*utils.ParameterBag).Set, key == "Set-Cookie") == 0 && emitted(bs.EventEmitter, "initial_headers") == 0
 //@   ensures [C17.cookie.set]    initial && cookie != nil ==> ncalls((*utils.ParameterBag).Set, key == "Set-Cookie" && p == headers) == 1 && calls((*http.Cookie).String) == 1 && arg((*utils.ParameterBag).Set, 1, value) == ret((*http.Cookie).String, 1)
@@ -649,8 +649,8 @@ package engine
 //@   requires s != nil && s.BaseServer != nil && ctxOK(ctx) && wscOK(wsc)
 //@   assumes registryOK(s.Clients())
 //@   modifies *
-//@   let tname   = uf_s_peek(ctx.query, "transport", old(ctx.query.$bagver))
-//@   let id      = uf_s_peek(ctx.query, "sid", old(ctx.query.$bagver))
+//@   let tname   = old(bagPeek(ctx.query, "transport"))
+//@   let id      = old(bagPeek(ctx.query, "sid"))
 //@   let refuses = calls(transports.TransportCtor.HandlesUpgrades) == 1 && !ret(transports.TransportCtor.HandlesUpgrades, 1)   // the named builder exists and does not take upgraded connections
 //@   ensures [C08.ws.refuse]   refuses ==> calls((*types.WebSocketConn).Close) == 1 && calls(Socket.MaybeUpgrade) == 0 && calls(BaseServer.Handshake) == 0
 //@   ensures [C05.ws.handshake] !refuses && len(id) == 0 ==> calls(BaseServer.Handshake) == 1 && calls(Socket.MaybeUpgrade) == 0
@@ -732,7 +732,7 @@ package engine
 //@   requires maphas(errorContext, "message") ==> typeis(mapval(errorContext, "message"), string)
 //@   assumes registryOK(s.Clients())
 //@   modifies *
-//@   let sid = uf_s_peek(ctx.query, "sid", old(ctx.query.$bagver))
+//@   let sid = old(bagPeek(ctx.query, "sid"))
 //@   ensures [C05.req.reject]    codeMessage != nil ==> calls((*server).emitAbortRequest) == 1 && calls(BaseServer.Handshake) == 0 && calls(transports.Transport.OnRequest) == 0 && nevents() == 1
 //@   ensures [C05.req.session]   codeMessage == nil && sid != "" && ret((*types.Map).Load, 1, 1) ==> calls(transports.Transport.OnRequest) == 1 && calls(BaseServer.Handshake) == 0 && calls(abortRequest) == 0
 //@   ensures [C04.req.unknown]   codeMessage == nil && sid != "" && !ret((*types.Map).Load, 1, 1) ==> calls(abortRequest) == 1 && arg(abortRequest, 1, codeMessage) == UNKNOWN_SID && calls(transports.Transport.OnRequest) == 0 && calls(BaseServer.Handshake) == 0
